@@ -1,2 +1,61 @@
 import Gopki.Model.Db
 import Gopki.Model.Hash
+/-! # C20 — no file content or artifact state crashes gopki; problems surface as errors
+
+The model returns an `Except` everywhere gopki's own code can fail.  The places where the Go code could
+panic are inventoried from the source on every run (`harness sites`, compared with
+`panic_sites.expected.json`); the theorems below discharge the explicit `panic` calls that depend on
+values.  Panics inside the standard library and third-party parsers are outside the model (partial). -/
+namespace C20
+open Config V1
+
+/-- an OID with an arc beyond what `encoding/asn1` can read back is rejected by `OidFromString`
+    (a configuration error), for OID strings of any length -/
+theorem C20_oid_range (s : String) (arcs : Oid) (h : oidFromString s = some arcs) : ∀ a ∈ arcs, a ≤ maxArc := by
+  unfold oidFromString at h
+  split at h
+  · simp at h; subst h; simp
+  · split at h
+    · simp at h
+    · rename_i as has
+      split at h
+      · simp at h
+      · rename_i hany
+        have hall : ∀ a ∈ as, a ≤ maxArc := by
+          intro a ha
+          apply Nat.le_of_not_lt
+          intro hgt
+          exact hany (List.any_eq_true.mpr ⟨a, ha, by simpa using hgt⟩)
+        split at h
+        · split at h
+          · simp at h
+          · simp at h; subst h; exact hall
+        · simp at h; subst h; exact hall
+
+/-- `HashSum` can fail to marshal (and Go would panic) only through a date outside the years 0…9999 -/
+theorem C20_hash_total (c : CertificateContent) (off : Int) (h : Hash.jsonOf c off = none) :
+    (c.validity.isStatic && c.validity.isSet) = true ∧
+    (Hash.rfc3339 c.validity.from_ off = none ∨ Hash.rfc3339 c.validity.until_ off = none) := by
+  unfold Hash.jsonOf at h
+  cases hk : (c.validity.isStatic && c.validity.isSet) with
+  | false => simp [hk, bind, Option.bind] at h
+  | true =>
+    refine ⟨rfl, ?_⟩
+    simp only [hk, if_true, bind, Option.bind] at h
+    cases hf : Hash.rfc3339 c.validity.from_ off with
+    | none => exact Or.inl rfl
+    | some f =>
+      cases hu : Hash.rfc3339 c.validity.until_ off with
+      | none => exact Or.inr rfl
+      | some u => simp [hf, hu] at h
+
+/-- … and `rfc3339` fails only for such a year -/
+theorem C20_rfc3339_total (unix off : Int) (h : Hash.rfc3339 unix off = none) :
+    (Calendar.wallOf unix off).year < 0 ∨ (Calendar.wallOf unix off).year > 9999 := by
+  unfold Hash.rfc3339 at h
+  simp only at h
+  split at h
+  · assumption
+  · simp at h
+
+end C20
